@@ -33,7 +33,7 @@ const GRACE_MS: u64 = 25;
 // ------------------------------------------------------------------ workload
 #[derive(Serialize, Deserialize, Clone, Debug)]
 enum Req {
-    Mut { persons: Vec<(u64, Vec<u64>)> },
+    Mut { persons: Vec<(u64, Vec<u64>)>, stream: bool },
     Upd { target: usize, label: u64 },
     Del { target: usize },
     Nodes { labels: Vec<u64> },
@@ -48,6 +48,7 @@ struct Workload {
     n_setup: usize,
     phases: Vec<Vec<Req>>,
     gate_ms: u64,
+    buffer: usize,
 }
 impl Workload {
     /// all requests in submission order; every phase starts with its gate (a generic Write)
@@ -63,6 +64,7 @@ impl Workload {
 /// writer arm (hook numbering) a request is executed by, number of statement groups
 fn arm_of(r: &Req) -> (u8, usize) {
     match r {
+        Req::Mut { stream: true, .. } => (3, 1),
         Req::Mut { .. } | Req::Upd { .. } => (2, 1),
         Req::Del { .. } => (1, 1),
         Req::Nodes { labels } => (4, labels.len()),
@@ -77,7 +79,7 @@ fn k_setup(i: usize) -> u64 { 20000 + i as u64 }
 fn ops_of(r: &Req) -> Vec<Vec<String>> {
     let put = |k: u64, v: u64, c: u64| format!("Put {} {} {}", gn(c), gn(k), gn(v));
     match r {
-        Req::Mut { persons } => {
+        Req::Mut { persons, .. } => {
             let mut g = vec![];
             for (p, pets) in persons {
                 g.push(put(*p, *p, 1));
@@ -96,7 +98,7 @@ fn ops_of(r: &Req) -> Vec<Vec<String>> {
 }
 fn marks_of(r: &Req) -> Vec<u64> {
     match r {
-        Req::Mut { persons } => { let mut m = vec![1]; if persons.iter().any(|(_, p)| !p.is_empty()) { m.push(2); } m }
+        Req::Mut { persons, .. } => { let mut m = vec![1]; if persons.iter().any(|(_, p)| !p.is_empty()) { m.push(2); } m }
         Req::Upd { .. } | Req::Del { .. } | Req::Nodes { .. } => vec![1],
         Req::RoomUpd { pet: Some(_), .. } => vec![2],
         _ => vec![],
@@ -104,6 +106,7 @@ fn marks_of(r: &Req) -> Vec<u64> {
 }
 fn kind_of(r: &Req) -> &'static str {
     match r {
+        Req::Mut { stream: true, .. } => "KMutationStream",
         Req::Mut { .. } | Req::Upd { .. } => "KMutation",
         Req::Del { .. } => "KDeletion",
         Req::Nodes { .. } => "KNodes",
@@ -205,7 +208,7 @@ fn vis_of(r: &Req, st: &State, ids: &Ids) -> i64 {
     let mut tot = 0; let mut ok = 0; let mut partial = false;
     let mut chk = |b: bool| { tot += 1; if b { ok += 1; } };
     match r {
-        Req::Mut { persons } => {
+        Req::Mut { persons, .. } => {
             for (p, pets) in persons {
                 let pn = by_name(&format!("L{}", p));
                 chk(pn.map(|x| x.2 == ids.ent_person && x.1.as_ref() == Some(&ids.room)).unwrap_or(false));
@@ -334,8 +337,8 @@ async fn wait_data_changed(ev: &mut tokio::sync::broadcast::Receiver<Event>, n: 
 
 fn key32(v: &[u8]) -> [u8; 32] { let mut k = [0u8; 32]; k.copy_from_slice(v); k }
 
-async fn start(dir: &Path, key: &[u8; 32], events: EventService) -> (GraphDatabaseService, Vec<u8>) {
-    let conf = Configuration { parallelism: 1, ..Configuration::default() };
+async fn start(dir: &Path, key: &[u8; 32], buffer: usize, events: EventService) -> (GraphDatabaseService, Vec<u8>) {
+    let conf = Configuration { parallelism: 1, write_buffer_length: buffer, ..Configuration::default() };
     let pubkey = derive_key("c13 public", key);
     let (svc, vk, _) = GraphDatabaseService::start(APP, MODEL, key, &pubkey, dir.to_path_buf(), &conf, events).await.expect("start");
     (svc, vk)
@@ -347,7 +350,7 @@ async fn child(dir: PathBuf, spec: PathBuf, mode: u8, k: u64, out: PathBuf) {
     let log = Log(Arc::new(Mutex::new(std::fs::File::create(&out).unwrap())));
     let events = EventService::new();
     let mut ev = events.subcribe().await;
-    let (svc, vk) = start(&dir, &key, events).await;
+    let (svc, vk) = start(&dir, &key, w.buffer, events).await;
     // ---- set-up (not armed): the main room, the rows later requests update or delete
     let mut p = Parameters::default();
     p.add("me", base64_encode(&vk)).unwrap();
@@ -423,7 +426,7 @@ async fn child(dir: PathBuf, spec: PathBuf, mode: u8, k: u64, out: PathBuf) {
                 });
             }}; }
             match r {
-                Req::Mut { persons } => {
+                Req::Mut { persons, stream } => {
                     let mut text = String::from("mutate { ");
                     for (j, (pl, pets)) in persons.iter().enumerate() {
                         text += &format!("p{}: ns.Person{{ room_id:$room name:\"L{}\" ", j, pl);
@@ -433,9 +436,21 @@ async fn child(dir: PathBuf, spec: PathBuf, mode: u8, k: u64, out: PathBuf) {
                     text += "}";
                     let mut p = Parameters::default();
                     p.add("room", room_b64.clone()).unwrap();
-                    let (reply, recv) = tokio::sync::oneshot::channel();
-                    let _ = svc.sender.send(DbMessage::Mutate(text, p, reply)).await;
-                    ack_task!(recv);
+                    if *stream {
+                        // the streaming interface: answered on an mpsc channel
+                        let (reply, mut recv) = tokio::sync::mpsc::channel(2);
+                        let _ = svc.sender.send(DbMessage::MutateStream(text, p, reply)).await;
+                        pending.fetch_add(1, Ordering::SeqCst);
+                        tokio::spawn(async move {
+                            let (code, msg) = match recv.recv().await { Some(Ok(_)) => (1, String::new()), Some(Err(e)) => (2, e.to_string().replace('\n', " ")), None => (3, String::new()) };
+                            lg.line(format!("A {} {} {}", i, code, msg));
+                            pd.fetch_sub(1, Ordering::SeqCst);
+                        });
+                    } else {
+                        let (reply, recv) = tokio::sync::oneshot::channel();
+                        let _ = svc.sender.send(DbMessage::Mutate(text, p, reply)).await;
+                        ack_task!(recv);
+                    }
                 }
                 Req::Upd { target, label } => {
                     let mut p = Parameters::default();
@@ -531,7 +546,7 @@ async fn verify(dir: PathBuf, spec: PathBuf, out: PathBuf) {
     // 2. a normal start; the start-up recompute
     let events = EventService::new();
     let mut ev = events.subcribe().await;
-    let (svc, _vk) = start(&dir, &key, events).await;
+    let (svc, _vk) = start(&dir, &key, 1024, events).await;
     let recomputed = wait_data_changed(&mut ev, 1, 3000).await;
     let st1 = dump(&path, &secret).expect("dump after restart");
     let (inv1, cons1) = log_check(&st1, &ids);
@@ -567,7 +582,7 @@ fn gen_workload(rng: &mut Rng, n_phases: usize, max_reqs: usize) -> Workload {
             let r = match rng.below(20) {
                 0..=6 => {
                     let np = 1 + rng.below(2) as usize;
-                    Req::Mut { persons: (0..np).map(|_| { let p = next(); let pets = (0..rng.below(3)).map(|_| next()).collect(); (p, pets) }).collect() }
+                    Req::Mut { persons: (0..np).map(|_| { let p = next(); let pets = (0..rng.below(3)).map(|_| next()).collect(); (p, pets) }).collect(), stream: rng.chance(1, 4) }
                 }
                 7..=9 if !free_targets.is_empty() => { let t = free_targets.remove(rng.below(free_targets.len() as u64) as usize); Req::Upd { target: t, label: next() } }
                 10..=12 if !free_targets.is_empty() => { let t = free_targets.remove(rng.below(free_targets.len() as u64) as usize); Req::Del { target: t } }
@@ -583,7 +598,7 @@ fn gen_workload(rng: &mut Rng, n_phases: usize, max_reqs: usize) -> Workload {
     }
     let mut key = vec![0u8; 32];
     for b in key.iter_mut() { *b = rng.below(256) as u8; }
-    Workload { key, n_setup, phases, gate_ms: 12 }
+    Workload { key, n_setup, phases, gate_ms: 12, buffer: *rng.pick(&[1024usize, 1024, 1024, 2, 1]) }
 }
 
 struct RunResult { mode: u8, k: u64, alive: bool, out: String, trace: Vec<(u8, u8)>, ver: Option<serde_json::Value>, err: Option<String>, retries: usize }
@@ -741,10 +756,10 @@ fn parent() {
     let fixed_key = |b: u8| vec![b; 32];
     let mut workloads: Vec<Workload> = vec![
         // K2: two definition changes of one room in flight, the first removes the caller's admin right
-        Workload { key: fixed_key(7), n_setup: 2, gate_ms: 12, phases: vec![vec![Req::RoomUpd { label: 61, revoke_pet: true, pet: None }, Req::RoomUpd { label: 62, revoke_pet: false, pet: Some(63) }]] },
+        Workload { key: fixed_key(7), n_setup: 2, gate_ms: 12, buffer: 1024, phases: vec![vec![Req::RoomUpd { label: 61, revoke_pet: true, pet: None }, Req::RoomUpd { label: 62, revoke_pet: false, pet: Some(63) }]] },
         // multi-row mutation + deletion + ingested rows + recompute in one batch, then a second batch
-        Workload { key: fixed_key(8), n_setup: 3, gate_ms: 12, phases: vec![
-            vec![Req::Mut { persons: vec![(101, vec![102, 103]), (104, vec![])] }, Req::Del { target: 0 }, Req::Nodes { labels: vec![105, 106] }, Req::Compute],
+        Workload { key: fixed_key(8), n_setup: 3, gate_ms: 12, buffer: 1024, phases: vec![
+            vec![Req::Mut { persons: vec![(101, vec![102, 103]), (104, vec![])], stream: false }, Req::Del { target: 0 }, Req::Nodes { labels: vec![105, 106] }, Req::Compute],
             vec![Req::Upd { target: 1, label: 107 }, Req::Room { label: 108 }, Req::Write { key: 109 }]] },
     ];
     let n_random = scale(4, 40);
